@@ -250,7 +250,45 @@ var peerChoices = []string{"", "::1", "2001:db8::7", "10.1.2.3"}
 
 var fsMu sync.Mutex // filesystem observations are global: one case at a time
 
+// runClient judges one client case. What the client does with a given path is deterministic, so a finding
+// must reproduce: a first verdict is confirmed by running the same case again after a quiet moment (with the
+// machine saturated, an exchange cut short by the harness's own time limits can leave a directory behind or
+// show one that a straggler of the previous case is still removing). Exchanges that ran into those time
+// limits are inconclusive and say nothing.
 func runClient(c ClientCase) (string, string) {
+	v, class := runClientOnce(c)
+	if v == "" {
+		return v, class
+	}
+	time.Sleep(400 * time.Millisecond)
+	removeTagged()
+	v2, _ := runClientOnce(c)
+	if v2 == "" {
+		ev.Class("client:first-verdict-not-reproduced(inconclusive)")
+		return "", class
+	}
+	return v2, class
+}
+
+// removeTagged removes every object in /tmp that carries this process's tag.
+func removeTagged() {
+	fsMu.Lock()
+	defer fsMu.Unlock()
+	if ents, err := os.ReadDir("/tmp"); err == nil {
+		for _, e := range ents {
+			if strings.Contains(e.Name(), tag) && "/tmp/"+e.Name() != tmpLink {
+				_ = os.Chmod("/tmp/"+e.Name(), 0o700)
+				_ = os.RemoveAll("/tmp/" + e.Name())
+			}
+		}
+	}
+}
+
+func timeLimitHit(err error) bool {
+	return err != nil && (strings.Contains(err.Error(), "deadline exceeded") || strings.Contains(err.Error(), "context canceled") || strings.Contains(err.Error(), "timeout") || strings.Contains(err.Error(), "timed out"))
+}
+
+func runClientOnce(c ClientCase) (string, string) {
 	fsMu.Lock()
 	defer fsMu.Unlock()
 	peerIP = "127.0.0.1"
@@ -284,6 +322,10 @@ func runClient(c ClientCase) (string, string) {
 		}
 	}()
 	end := created(before, after)
+	if timeLimitHit(herr) || (plog != nil && timeLimitHit(plog.Err)) {
+		ev.Class("client:exchange-hit-the-harness-time-limit(inconclusive)")
+		return "", class
+	}
 	if len(c.Path) >= 4095 {
 		// beyond the client's size cap for this field: it aborts the exchange without reporting a
 		// result (what the scripted server reads next is the client's give-up bitmask, not a result)
